@@ -254,7 +254,7 @@ Definition FSpecial (t : table) : Special float :=
 (* ------------------------------------------------------------------------------------ *)
 
 (* the variant of UniformPrior.value_for that /repo currently contains *)
-Definition code_variant : variant := Current.
+Definition code_variant : variant := Repaired.
 
 Definition fresult_eqb (a b : result float) : bool :=
   match a, b with
